@@ -33,6 +33,17 @@ def t_sx(T):
 
 
 def gen_transform(rng, nrows, ncols):
+    """Mostly dense dyadic matrices; one in four is a structured matrix for which an implementation might take a
+    shortcut: a (signed) permutation / selection matrix with entries 0, +1, -1 (rows distinct unit vectors when
+    nrows <= ncols), or the identity."""
+    r = rng.random()
+    if r < 0.25 and nrows <= ncols:
+        cols = rng.sample(range(ncols), nrows) if r >= 0.05 else list(range(nrows))
+        signed = r >= 0.12
+        T = [[Fraction(0)] * ncols for _ in range(nrows)]
+        for i, c in enumerate(cols):
+            T[i][c] = Fraction(rng.choice([-1, 1]) if signed else 1)
+        return T
     return [[Fraction(rng.randint(-8, 8), 8) for _ in range(ncols)] for _ in range(nrows)]
 
 
